@@ -47,6 +47,7 @@ type Options struct {
 	PreparedCache     proxycore.PreparedCache
 	ListenIP          string
 	RefreshWindow     time.Duration
+	BackendAuth       string // "" | "password" | "dse": the backend demands authentication, the proxy is given the credentials
 }
 
 type Env struct {
@@ -110,6 +111,9 @@ func Start(o Options) (*Env, error) {
 		e.C = fakecql.New(t)
 		e.C.DSEVersion = o.DSE
 		e.C.MaxVersion = o.ClusterMaxVersion
+		if o.BackendAuth != "" {
+			e.C.Auth, e.C.AuthUser, e.C.AuthPass = o.BackendAuth, "verif-user", "verif-pass"
+		}
 		e.C.AddKeyspace(o.Keyspaces...)
 		// distinct third octet per cluster inside the process block is not needed: ports differ
 		for i := 1; i <= o.Nodes; i++ {
@@ -148,6 +152,9 @@ func Start(o Options) (*Env, error) {
 		Tokens:            o.Tokens,
 		Peers:             o.Peers,
 		PreparedCache:     o.PreparedCache,
+	}
+	if o.BackendAuth != "" {
+		cfg.Auth = proxycore.NewPasswordAuth("verif-user", "verif-pass")
 	}
 	if len(o.Unsupported) > 0 || o.Override != "" {
 		if err := proxy.VerifSetUnsupportedWriteConsistencies(&cfg, o.Unsupported, o.Override); err != nil {
